@@ -195,6 +195,21 @@ func (ex *Exec) execFunc(fn *ssa.Function, args []Val, bind []Val, st *State, re
 	if top {
 		// postconditions and the frame are checked once, on the merged exit state
 		fr.checkPost(nil, res, out, rr)
+		// a `before CALLEE assert` that matched no call site would be a silent hole: it fails instead
+		if fr.c != nil && !ex.discover {
+			var keys []string
+			for k := range fr.c.Before {
+				keys = append(keys, k)
+			}
+			sortStrings(keys)
+			for _, k := range keys {
+				if !ex.beforeHit[k] {
+					for _, cl := range fr.c.Before[k] {
+						ex.oblige("before."+k+"."+cl.Label+".nosite", "assert", cl.Props, "false", cl.Pos, "no call of "+k+" found for: "+cl.Text)
+					}
+				}
+			}
+		}
 	}
 	return res, out, rr
 }
@@ -554,6 +569,10 @@ func (fr *frame) goTo(b *ssa.BasicBlock, succ *ssa.BasicBlock, cond string, st *
 	ex := fr.ex
 	if fr.loops.back[[2]int{b.Index, succ.Index}] {
 		ord := fr.loops.ordinal[succ]
+		if fr.top && !ex.discover {
+			ex.backReach = append(ex.backReach, cond)
+			ex.backPos = append(ex.backPos, fmt.Sprintf("loop%d back edge from block %d", ord, b.Index))
+		}
 		// evaluate invariant with the phi values flowing along this edge
 		saved := map[*ssa.Phi]Val{}
 		idx := predIndex(succ, b)
